@@ -6,8 +6,8 @@
    Serializer makes at which position - toData, the dedup memo, the three hash routes, stringified values).  An "event tree" `ev` is one top-level call on a
    px.ValueConsumer with the calls its doer makes nested inside (Add / AddRef / AddArray / AddHash). *)
 From Coq Require Import ZArith NArith Bool List.
-From PcoreV Require Import Model.Base Model.Json Model.Pb Model.PbMem Model.JsonSer Proofs.JsonProofs Proofs.PbProofs Proofs.PbMemProofs
-  Proofs.JsonSerProofs.
+From PcoreV Require Import Model.Base Model.Json Model.Pb Model.PbMem Model.JsonSer Model.JsonStr Proofs.JsonProofs Proofs.PbProofs
+  Proofs.PbMemProofs Proofs.JsonSerProofs Proofs.JsonStrProofs.
 Import ListNotations.
 Open Scope Z_scope.
 
@@ -341,4 +341,61 @@ Example C11_ser_nonvacuous :
           EHash [EAdd (SStr s_ptype); EAdd (SStr s_Hash); EAdd (SStr s_pvalue);
                  EArr [EAdd (SInt 7); ERef 2; ERef 1; ERef 1]]] /\
   json_valid (render (ser_top (json_cfg false 2) ex_sval)) = true.
+Proof. repeat split; vm_compute; reflexivity. Qed.
+
+(* ============================================================================================== *)
+(* The string lexeme, byte by byte (Model/JsonStr.v)                                                *)
+
+(* The theorems above speak of tokens: `write (SStr x)` is the token TStr (utf8_coerce x), i.e. "what is written for
+   x is a string lexeme that decodes to utf8_coerce x".  Here that is a theorem about the BYTES: write_string x
+   (jsonstreamer.go:108, json.Marshal(e.String()) handed on unchanged) against a reader of one string lexeme
+   (json_unquote: encoding/json's scanner + unquoteBytes, all escapes, surrogate pairs, UTF-8 coercion).
+   For EVERY byte string x - in particular one whose content looks like an escape sequence (a backslash followed
+   by u0026, n, a quote ...; JSON text stored as a string; a string ending in a backslash): *)
+
+(* what is written is a JSON string lexeme (RFC 8259 section 7) ... *)
+Theorem C11_string_lexeme_valid :
+  forall x, str_lexeme_ok (write_string x) = true.
+Proof. exact escape_lexeme_ok. Qed.
+Print Assumptions C11_string_lexeme_valid.
+
+(* ... which decodes to x with each byte that starts no well-formed UTF-8 sequence replaced by U+FFFD ... *)
+Theorem C11_string_lexeme_roundtrip :
+  forall x, json_unquote (write_string x) = Some (utf8_coerce x).
+Proof. exact unquote_escape. Qed.
+Print Assumptions C11_string_lexeme_roundtrip.
+
+(* ... so a valid UTF-8 string keeps every character, whatever its content looks like *)
+Theorem C11_string_lexeme_keeps_unicode :
+  forall x, utf8_valid x = true -> json_unquote (write_string x) = Some x.
+Proof. exact unquote_escape_valid. Qed.
+Print Assumptions C11_string_lexeme_keeps_unicode.
+
+(* the token the writer model of Model/Json.v emits for a string IS the token of the bytes written *)
+Theorem C11_string_token_is_bytes :
+  forall x, write (SStr x) = Ok [str_token (write_string x)].
+Proof. exact write_is_write_string. Qed.
+Print Assumptions C11_string_token_is_bytes.
+
+(* the byte model is discriminating: the variant that replaces the six bytes backslash-u0026 by & after marshalling
+   (seeded change C11-m8) writes, for the string whose content is those six bytes, something that is no string
+   lexeme, while the code as it is writes a lexeme that decodes to the string *)
+Theorem C11_string_amp_replace_refuted :
+  str_lexeme_ok (write_string_amp amp_witness) = false /\ str_token (write_string_amp amp_witness) = TBad /\
+  str_token (write_string amp_witness) = TStr amp_witness.
+Proof. exact amp_replace_refuted. Qed.
+Print Assumptions C11_string_amp_replace_refuted.
+
+(* a & b < quote backslash + the six bytes backslash-u0026 + LF + e-acute + an invalid byte + U+2028 + a trailing backslash *)
+Example C11_string_nonvacuous :
+  let x := [97; 38; 98; 60; 34; 92; 92; 117; 48; 48; 50; 54; 10; 195; 169; 255; 226; 128; 168; 92]%N in
+  write_string x =
+    [34; 97; 92; 117; 48; 48; 50; 54; 98; 92; 117; 48; 48; 51; 99; 92; 34; 92; 92; 92; 92; 117; 48; 48; 50; 54; 92; 110;
+     195; 169; 92; 117; 102; 102; 102; 100; 92; 117; 50; 48; 50; 56; 92; 92; 34]%N /\
+  json_unquote (write_string x) =
+    Some [97; 38; 98; 60; 34; 92; 92; 117; 48; 48; 50; 54; 10; 195; 169; 239; 191; 189; 226; 128; 168; 92]%N /\
+  (* a surrogate pair, a lone surrogate, an unknown escape, a raw control character *)
+  json_unquote [34; 92; 117; 100; 56; 51; 100; 92; 117; 100; 101; 48; 48; 34]%N = Some [240; 159; 152; 128]%N /\
+  json_unquote [34; 92; 117; 100; 56; 48; 48; 120; 34]%N = Some [239; 191; 189; 120]%N /\
+  json_unquote [34; 92; 38; 34]%N = None /\ json_unquote [34; 10; 34]%N = None.
 Proof. repeat split; vm_compute; reflexivity. Qed.
